@@ -1,0 +1,60 @@
+//go:build verif
+
+package rfmt
+
+import (
+	"reflect"
+	"sync/atomic"
+	"unsafe"
+)
+
+// Tracing hooks for the verification harness in /verif (build tag "verif"):
+// one event per printer-pool operation, emitted after newPrinter's
+// re-initialisation ("get") and before the printer is handed back to the pool
+// ("put") or dropped because its buffer is too large ("drop").
+
+const verifOn = true
+
+// VerifPoolEvent carries every field of the printer that can influence a later call.
+type VerifPoolEvent struct {
+	Seq        int64  `json:"seq"` // global order of hook invocations
+	Ev         string `json:"ev"`
+	Pid        uint64 `json:"pid"` // identity of the printer object
+	Override   int    `json:"ov"`
+	WrapErrs   bool   `json:"wrapErrs"`
+	WrappedErr bool   `json:"wrappedErr"`
+	Panicking  bool   `json:"panicking"`
+	Erroring   bool   `json:"erroring"`
+	ArgSet     bool   `json:"argSet"`
+	BufLen     int    `json:"bufLen"`
+	BufCap     int    `json:"bufCap"`
+	BufMode    int    `json:"bufMode"`
+	BufOpen    bool   `json:"bufOpen"`
+	BufValid   int    `json:"bufValid"`
+	BufArr     uint64 `json:"bufArr"` // identity of the backing array (0: none)
+}
+
+// VerifPoolSink receives the events; nil (the default) disables tracing.
+var VerifPoolSink func(ev VerifPoolEvent)
+
+var verifSeq int64
+
+func verifPool(ev string, p *pp) {
+	sink := VerifPoolSink
+	if sink == nil {
+		return
+	}
+	bv := reflect.ValueOf(&p.buf.Buffer).Elem()
+	raw := bv.FieldByName("buf")
+	var arr uint64
+	if raw.Cap() > 0 {
+		arr = uint64(raw.Pointer())
+	}
+	sink(VerifPoolEvent{
+		Seq: atomic.AddInt64(&verifSeq, 1), Ev: ev, Pid: uint64(uintptr(unsafe.Pointer(p))),
+		Override: int(p.override), WrapErrs: p.wrapErrs, WrappedErr: p.wrappedErr != nil,
+		Panicking: p.panicking, Erroring: p.erroring, ArgSet: p.arg != nil || p.value.IsValid(),
+		BufLen: raw.Len(), BufCap: raw.Cap(), BufMode: int(bv.FieldByName("mode").Int()),
+		BufOpen: bv.FieldByName("markerOpen").Bool(), BufValid: int(bv.FieldByName("validUntil").Int()), BufArr: arr,
+	})
+}
